@@ -16,16 +16,21 @@ EXPLANATION = (
 ASSUMPTIONS = ["`redo` (as opposed to redo-ifchange) passes an always-dirty callback by design", "unwind edges excluded"]
 
 
+# the scheduler's "seen" set: any of the standard set types (membership semantics are the same; which one is used is
+# not the property)
+_SET = r"(std::collections::hash::set::HashSet|alloc::collections::btree::set::BTreeSet)"
+
+
 def dedupe_rule(ctx, rid):
     """R7.1 (= R9.4 = R15.4): the value tested against / inserted into the scheduler's `seen`
     set derives from the record returned by File::from_name, not directly from the argument."""
     prog = ctx.prog
     S = anchors.scheduler(prog)
     ba = BA.of(S)
-    contains = ba.calls(r"std::collections::hash::set::HashSet::contains")
-    all_inserts = ba.calls(r"std::collections::hash::set::HashSet::insert")
+    contains = ba.calls(_SET + r"::contains")
+    all_inserts = ba.calls(_SET + r"::insert")
     # an insert whose bool result is branched on is a test as well
-    tested_inserts = [cbb for (sw, t_t, f_t, cbb) in ba.switches_on_call(r"std::collections::hash::set::HashSet::insert")]
+    tested_inserts = [cbb for (sw, t_t, f_t, cbb) in ba.switches_on_call(_SET + r"::insert")]
     tests = contains + tested_inserts
     inserts = all_inserts
     sites = [bb for bb, _, _ in anchors.agg_sites(S, r"builder::BuildJob")]
@@ -39,8 +44,8 @@ def dedupe_rule(ctx, rid):
     ctx.ob(rid, "%s|dedupe-dominates-first-pass" % S.key, dom, where=ctx.where(S, tests[0]) if tests else S.span,
            detail="the seen-set test dominates the first-pass BuildJob construction" if dom else "a first-pass job can be constructed without the seen-set test")
     skip_ok = False
-    for (sw, t_t, f_t, cbb) in ba.switches_on_call(r"std::collections::hash::set::HashSet::(insert|contains)"):
-        is_insert = call_matches(S.blocks[cbb]["term"], r"std::collections::hash::set::HashSet::insert")
+    for (sw, t_t, f_t, cbb) in ba.switches_on_call(_SET + r"::(insert|contains)"):
+        is_insert = call_matches(S.blocks[cbb]["term"], _SET + r"::insert")
         dup_edge = f_t if is_insert else t_t        # insert() == false / contains() == true: seen before
         new_edge = t_t if is_insert else f_t
         if first_site is not None and ba.edge_dominates((sw, new_edge), first_site) and ba.path([dup_edge], [first_site], avoid=frozenset(ba.calls(r".*::iterator::Iterator>?::next")), incl=True) is None:
@@ -48,8 +53,8 @@ def dedupe_rule(ctx, rid):
     # every target that gets past the test is remembered, whatever happens to it next (started, or queued as locked)
     rem_ok = False
     nxts = ba.calls(r".*::iterator::Iterator>?::next")
-    for (sw, t_t, f_t, cbb) in ba.switches_on_call(r"std::collections::hash::set::HashSet::(insert|contains)"):
-        is_insert = call_matches(S.blocks[cbb]["term"], r"std::collections::hash::set::HashSet::insert")
+    for (sw, t_t, f_t, cbb) in ba.switches_on_call(_SET + r"::(insert|contains)"):
+        is_insert = call_matches(S.blocks[cbb]["term"], _SET + r"::insert")
         if is_insert:
             rem_ok = True
         else:
@@ -129,7 +134,9 @@ def run(ctx):
         # (`self.x_runid.is_some_and(|r| r != 0 && r >= v.runid.unwrap())`): look at the function and the closures
         # nested in it. What must exist: a `>=` (or the mirrored `<=`) whose smaller side is the current run id
         # (a read of Env.runid), in code that also reads this predicate's own run-id field.
-        fam = [b]
+        # (a closure the predicate builds and runs itself - e.g. a lazily evaluated `|| env.runid.unwrap()` handed to a
+        # shared helper that was spliced in - is part of the predicate)
+        fam = [common.splice_local_closures(prog, b)]
         k = 0
         while k < len(fam):
             fam.extend(c for c in prog.children(fam[k]) if c not in fam)
